@@ -32,6 +32,29 @@ func (bs *buildState) inFlattenChain(name string) bool {
 	return false
 }
 
+// flattensIntoChain reports whether an object which is already built flattens,
+// directly or through other built objects, an object of the chain.
+func (bs *buildState) flattensIntoChain(ref *RefSchema, seen map[*RefSchema]bool) bool {
+	if seen[ref] {
+		return false
+	}
+	seen[ref] = true
+	obj, ok := ref.To.(*ObjectSchema)
+	if !ok {
+		return false
+	}
+	for _, prop := range obj.Properties {
+		field, ok := prop.Schema.(*ObjectField)
+		if !ok || !field.Flatten || field.Ref == nil {
+			continue
+		}
+		if bs.inFlattenChain(field.Ref.FullName()) || bs.flattensIntoChain(field.Ref, seen) {
+			return true
+		}
+	}
+	return false
+}
+
 type SchemaSet struct {
 	Packages map[string]*Package
 
